@@ -258,6 +258,65 @@ func c07Scribble(r *fw.Rand, eg *geojson.Geometry) {
 	}
 }
 
+// c07Huge: one coordinate array of 65,536 .. 1.2 million positions (on and next
+// to powers of two), or that many parts: marshalled, read back, compared
+func c07Huge(c *fw.Ctx, idx int) {
+	r := c.R
+	n := []int{1<<20 + 1, 1 << 16, 1<<16 + 1, 1<<17 + 1, 1 << 20, 1<<18 + 1, 1<<19 + 3, 70000}[idx%8]
+	if idx >= 8 {
+		n = hugeFloats(r, 1)
+	}
+	layout := []geom.Layout{geom.XY, geom.XYZ}[r.Intn(2)]
+	stride := layout.Stride()
+	flat := make([]float64, n*stride)
+	for i := range flat {
+		flat[i] = float64(i%1000) + 0.5
+	}
+	var t geom.T
+	how := ""
+	switch idx % 3 {
+	case 0:
+		t, how = geom.NewLineStringFlat(layout, flat), "LineString"
+	case 1:
+		t, how = geom.NewMultiPointFlat(layout, flat), "MultiPoint"
+	default:
+		ends := make([]int, 0, n/2)
+		for e := 2 * stride; e <= len(flat); e += 2 * stride {
+			ends = append(ends, e)
+		}
+		t, how = geom.NewMultiLineStringFlat(layout, flat[:ends[len(ends)-1]], ends), "MultiLineString of two-point lines"
+	}
+	c.SetInput(map[string]any{"geometry": how, "layout": layout.String(), "positions": n, "ordinate_i": "(i mod 1000) + 0.5"})
+	var data []byte
+	var err error
+	if c.Guard("panic", func() { data, err = geojson.Marshal(t) }) {
+		return
+	}
+	c.Eval(1)
+	if err != nil {
+		c.Fail("marshal-error", "geojson.Marshal failed on a geometry of %d positions: %v", n, err)
+		return
+	}
+	var back geom.T
+	if c.Guard("panic", func() { err = geojson.Unmarshal(data, &back) }) {
+		return
+	}
+	c.Eval(1)
+	if err != nil {
+		c.Fail("unmarshal-error", "geojson.Unmarshal rejected the library's own output for a %s of %d positions (%d bytes): %v", how, n, len(data), err)
+		return
+	}
+	c.Count("huge_roundtrips")
+	c.Distinct(fmt.Sprintf("huge/%s/%d", how, n))
+	if back == nil || isNilGeom(back) {
+		c.Fail("nil-geometry", "nil geometry decoded")
+		return
+	}
+	if d := snap(t).diff(snap(back)); d != "" {
+		c.Fail("not-equal", "a %s of %d positions does not come back equal: %s", how, n, d)
+	}
+}
+
 // ---- features ----
 
 func c07JSONValue(r *fw.Rand, depth int) any {
@@ -806,6 +865,7 @@ func init() {
 			{Name: "geometry-roundtrip", Quick: 80000, Thorough: 1500000, Run: c07Geometry},
 			{Name: "features", Quick: 40000, Thorough: 500000, Run: c07Feature},
 			{Name: "numeric-ids", Quick: 3000, Thorough: 100000, Run: c07NumericID},
+			{Name: "huge", Quick: 4, Thorough: 48, Chunk: 1, Run: c07Huge},
 			{Name: "decoders", Quick: 300000, Thorough: 8000000, Run: c07Decoders, RawReplay: c07RawReplay},
 		},
 		Extra: fuzzExtra("C07", 2000000),
